@@ -69,6 +69,7 @@ DAILY_BASE = {
     "poor":  ("2019-01-01", 365, TZ, None, 0.0),
     "east":  ("2019-01-01", 365, TZ_OTHER, CURVE_A, 1.0),
     "allheat": ("2019-01-01", 365, TZ, (5.0, 1.2, 95.0, 0.0, 100.0), 1.0),      # usage falls with temperature over the WHOLE observed range: the balance point ends up on its segment bound
+    "summerzero": ("2019-01-01", 365, TZ, (0.0, 0.9, 62.0, 0.0, 100.0), 0.6),      # a heating-only gas meter reading exactly 0 from June to September but for five isolated days
     "long":  ("2018-10-01", 400, TZ, CURVE_A, 1.0),       # more than 365 days
     "neggas": ("2019-01-01", 365, TZ, CURVE_A, 1.0),     # a gas meter with a few negative readings
     "netpoor": ("2019-01-01", 365, TZ, None, 0.0),       # a net-metered building that exports more than it draws: spiky usage, mean below zero
@@ -180,6 +181,11 @@ def build(fam, kind, name, obs_variant="orig", ghi=False, supp=False):
                 obs[40:95] = np.nan
             if name == "neggas":
                 obs[[33, 150, 151, 290]] = -5.0
+            if name == "summerzero":
+                obs = np.clip(obs, 0, None)
+                obs[np.isin(idx.month, [6, 7, 8, 9])] = 0.0
+                for day in ("2019-06-11", "2019-07-06", "2019-07-24", "2019-08-18", "2019-09-03"):
+                    obs[idx.get_loc(pd.Timestamp(day, tz=tz))] = 1.0
             if name == "tgaps":
                 T = T.copy()
                 T[np.arange(days) % 30 == 7] = np.nan
@@ -193,7 +199,7 @@ def build(fam, kind, name, obs_variant="orig", ghi=False, supp=False):
             cols["observed"] = obs
         if kind != "baseline":
             idx, cols = dup_rows(name, idx, cols, False)
-        return pd.DataFrame(cols, index=idx), {"is_electricity_data": not (kind == "baseline" and name == "neggas")}
+        return pd.DataFrame(cols, index=idx), {"is_electricity_data": not (kind == "baseline" and name in ("neggas", "summerzero"))}
     if fam in ("hourly", "caltrack"):
         if kind == "baseline":
             start, days, tz, curve, noise = DAILY_BASE[name]
@@ -235,5 +241,5 @@ def build(fam, kind, name, obs_variant="orig", ghi=False, supp=False):
             cols["observed"] = obs
         if kind != "baseline":
             idx, cols = dup_rows(name, idx, cols, True)
-        return pd.DataFrame(cols, index=idx), {"is_electricity_data": not (kind == "baseline" and name == "neggas")}
+        return pd.DataFrame(cols, index=idx), {"is_electricity_data": not (kind == "baseline" and name in ("neggas", "summerzero"))}
     raise ValueError(fam)
